@@ -191,6 +191,16 @@ def check_surface(case, ctx):
     finish(s4)
     if not judge(ctx, rng, s4, S, 'route/manager-layout', 'SurfaceManager.ctrlpts is not in the surface\'s flat layout', what='manager'):
         return
+    # (sixth hunt) a manager loaded with the points of a surface (mgr.ctrlpts = surf.ctrlpts) and reset afterwards: the surface keeps them
+    mgr2 = control_points.SurfaceManager(nu, nv)
+    held = s4.ctrlptsw if rational else s4.ctrlpts
+    snap_ = [list(x) for x in held]
+    mgr2.ctrlpts = held
+    mgr2.reset()
+    ctx.tag('manager:reset-after-loading-a-surface')
+    ctx.check([list(x) for x in (s4.ctrlptsw if rational else s4.ctrlpts)] == snap_, 'route/manager-reset-wipes-source',
+              'SurfaceManager.ctrlpts = surf.ctrlpts; manager.reset(): the SURFACE has lost its control points (the list is emptied in place)',
+              what='manager')
     # flip helpers: u-row order (u fastest) <-> v-row order (v fastest)
     urow = [hom(P, W, (i, j), rational) for j in range(nv) for i in range(nu)]
     ctx.check(close(compatibility.flip_ctrlpts_u(copy.deepcopy(urow), nu, nv), flat), 'route/flip_ctrlpts_u',
